@@ -30,7 +30,10 @@ RULE = ("every body attribute × shapes {scalar, 1×ncol, nrow×ncol} with rando
         "nrow from one page to many × 0..k removed columns at any position × the three strategies; non-trivial = ≥ 2 "
         "pages and at least one matrix-shaped attribute; distinct by (strategy, nrow, shapes, page sizes)")
 
-COLORS = ["red", "blue", "green", "gold", "gray50", "navy", "orchid", "salmon"]
+# the pool mixes names whose alphabetical order differs from their order in the colour table ("white" is entry 1 of
+# the table and last by name; gray2 < gray10 < gray100 by index, gray10 < gray100 < gray2 by name), so that an index
+# computed against any other ordering of the document's palette than the table's own shows
+COLORS = ["red", "blue", "green", "gold", "gray50", "navy", "orchid", "salmon", "white", "gray2", "gray10", "gray100"]
 BORDERS = ["single", "double", "dotted", "dashed", "thick", ""]
 ATTRS = {
     "text_font": lambda r: r.randint(1, 10),
